@@ -44,7 +44,10 @@ if __name__ == "__main__":
     out = []
     for s in specs:
         try:
-            out.append(digest_of(s, pollute))
+            from harness.common import run_limit
+
+            with run_limit(60):
+                out.append(digest_of(s, pollute))
         except Exception as e:
             out.append({"error": f"{type(e).__name__}: {e}"})
     print(json.dumps(out))
